@@ -13,9 +13,11 @@ import (
 //
 // World: 1 full-stack node, manager created with general and per-node metadata. Symbolic: peer
 // down at creation or not; up to maxEvents stop/start events at scheduler-chosen points while a
-// workload call is in flight; the call type of the workload. Final phase: the peer is up,
-// *all timers are frozen*; a probe RPC must be written, and once the peer has answered it the
-// caller must get that reply without any timer firing (no waiting out a back-off).
+// workload call is in flight; the call type of the workload. Final phase: the peer is up; a
+// probe RPC must be written (first tried with all timers frozen; if the sender is sitting out
+// the back-off of an earlier failed attempt, with timers running), and once the peer has
+// answered it the caller must get that reply *without any timer firing* (no waiting out a
+// back-off).
 // Every stream the peer ever saw must carry metadata.Join(general, perNode(id)).
 
 func VerifC10(maxEvents, withWorkload int) {
@@ -87,6 +89,22 @@ func VerifC10(maxEvents, withWorkload int) {
 		vReach("probe-after-down-at-creation")
 	}
 	a := p.take()
+	if a == nil && !returned {
+		// Not written while the timers stand still: the sender may be sitting out the back-off
+		// of a connection attempt made while the peer was down - waiting for *that* is not
+		// what the property forbids. Let the timers run (fresh budget) and look again.
+		vReach("probe-needs-timer")
+		vAtomic(1, &vTimersFired)
+		vTimersFired = 0 // (a timer that starved earlier stays dead: vTimerStarved is kept)
+		vAtomicEnd()
+		vUnfreezeEnv()
+		vQuiescent()
+		vFreezeEnv()
+		a = p.take()
+		if a == nil && !returned && vTimerStarved {
+			vAssume(false) // needs more timer firings than the bound allows: outside the claim
+		}
+	}
 	if a == nil {
 		// the node is up: the request must have been written (a send that fails because the
 		// connection attempt of *this* call failed is not possible: the peer accepts streams)
